@@ -32,6 +32,13 @@ for _u in list(UNITS.get("C01", [])):
 for _u in list(UNITS.get("C03", [])):
     if _u["name"].startswith("nonparametric.aggregate_intervals."):
         UNITS.setdefault("C02", []).append(dict(_u, prop="C02", name=_u["name"]))
+# the bootstrap estimator's aggregate predictions (turnout = sum of unit turnout, margin = sum of unit margins over
+# turnout, interval rows aligned with the estimates table): the C06 units, registered here as well
+import contracts.C06 as _c06  # noqa: E402,F401
+
+for _u in list(UNITS.get("C06", [])):
+    if _u["name"].startswith("aggregate_predictions.") or _u["name"].startswith("aggregate_intervals."):
+        UNITS.setdefault("C02", []).append(dict(_u, prop="C02", name="bootstrap." + _u["name"]))
 
 
 def _handler(h, t, aggregates, alphas):
